@@ -30,7 +30,7 @@ func c04Report(ctx *Ctx, cs map[string]interface{}, o database.SearchOptions, rs
 
 func engineFilters(ctx *Ctx) {
 	r := vlib.NewRand(ctx.Seed, ctx.Shard, "filters")
-	nDB := ctx.N(320, 3200)
+	nDB := ctx.N(320, 16000)
 	nQ := ctx.Pick(24, 30)
 	for d := 0; d < nDB; d++ {
 		var db *database.Database
@@ -175,7 +175,7 @@ func engineFilters(ctx *Ctx) {
 
 func engineFiltersCLI(ctx *Ctx) {
 	r := vlib.NewRand(ctx.Seed, ctx.Shard, "filters-cli")
-	nDB := ctx.N(48, 480)
+	nDB := ctx.N(48, 1600)
 	for d := 0; d < nDB; d++ {
 		sp := c04DB(ctx, d+ctx.Shard)
 		if sp.N > 60 {
